@@ -44,6 +44,7 @@ ATAN2 = z3.Function("atan2", RS, RS, RS)
 ASIN = z3.Function("asin", RS, RS)
 ACOS = z3.Function("acos", RS, RS)
 HYP = z3.Function("hypot3", RS, RS, RS, RS)  # hypot(x, y) = hypot3(x, y, 0)
+QUOT = z3.Function("quotient", RS, RS, RS)  # x / c for a symbolic divisor c (kept uninterpreted: queries stay linear)
 # integer witnesses of "equal modulo whole turns" in the angle axioms (Skolem functions)
 W_ROTATED = z3.Function("turns.rotated", RS, RS, RS, z3.IntSort())
 W_YAW_ROTATED = z3.Function("turns.yaw_rotated", RS, RS, RS, RS, z3.IntSort())
@@ -89,11 +90,14 @@ def _axioms():
     # ---- scipy Rotation as a group acting on R^3 (trusted algebra, DESIGN.md C07)
     g = ax.setdefault("rot", [])
     g.append(("L-rot.inverse_undoes_apply", fa([r, x, y, z], eq3(A(INV(r), A(r, v)), v), [z3.MultiPattern(INV(r), AP[0](r, x, y, z))])))
-    g.append(("L-rot.apply_undoes_inverse", fa([r, x, y, z], eq3(A(r, A(INV(r), v)), v), [AP[0](INV(r), x, y, z)])))
+    # explicit instances only: triggered on every inverse-apply term it would ping-pong with the previous axiom (matching loop)
+    g.append(("L-rot.apply_undoes_inverse", fa([r, x, y, z], eq3(A(r, A(INV(r), v)), v))))
     g.append(("L-rot.identity_action", fa([x, y, z], eq3(A(IDENT, v), v), [AP[0](IDENT, x, y, z)])))
     g.append(("L-rot.product_action", fa([r, s, x, y, z], eq3(A(MUL(r, s), v), A(r, A(s, v))), [AP[0](MUL(r, s), x, y, z), AP[1](MUL(r, s), x, y, z), AP[2](MUL(r, s), x, y, z)])))
     g.append(("L-rot.group_identity", fa([r], z3.And(MUL(IDENT, r) == r, MUL(r, IDENT) == r), [MUL(IDENT, r), MUL(r, IDENT)])))
-    g.append(("L-rot.group_inverse", fa([r], z3.And(MUL(r, INV(r)) == IDENT, MUL(INV(r), r) == IDENT, INV(INV(r)) == r), [INV(r)])))
+    g.append(("L-rot.group_inverse", fa([r], z3.And(MUL(r, INV(r)) == IDENT, MUL(INV(r), r) == IDENT), [MUL(r, INV(r)), MUL(INV(r), r)])))
+    g.append(("L-rot.inverse_is_an_involution", fa([r], INV(INV(r)) == r, [INV(INV(r))])))
+    g.append(("L-rot.only_the_identity_inverts_to_the_identity", fa([r], (INV(r) == IDENT) == (r == IDENT), [INV(r)])))
     g.append(("L-rot.group_cancel", fa([r, s], z3.And(MUL(r, MUL(INV(r), s)) == s, MUL(INV(r), MUL(r, s)) == s), [MUL(r, MUL(INV(r), s)), MUL(INV(r), MUL(r, s)), z3.MultiPattern(INV(r), MUL(r, s))])))
     g.append(("L-rot.inverse_of_identity", INV(IDENT) == IDENT))
     g.append(("L-rot.zero_vector_fixed", fa([r], eq3(A(r, (0, 0, 0)), (0, 0, 0)), [AP[0](r, 0, 0, 0), AP[1](r, 0, 0, 0), AP[2](r, 0, 0, 0)])))
@@ -125,6 +129,7 @@ def _axioms():
     g.append(("L-rot.isometry", fa([r, x, y, z], ap[0] * ap[0] + ap[1] * ap[1] + ap[2] * ap[2] == x * x + y * y + z * z, [AP[0](r, x, y, z), AP[1](r, x, y, z), AP[2](r, x, y, z)])))
     g = ax.setdefault("rot.linear", [])
     g.append(("L-rot.homogeneous", fa([r, c, x, y, z], eq3(A(r, (c * x, c * y, c * z)), tuple(c * t for t in A(r, v))))))
+    g.append(("L-rot.homogeneous_division", fa([r, c, x, y, z], z3.Implies(c != 0, eq3(A(r, (QUOT(x, c), QUOT(y, c), QUOT(z, c))), tuple(QUOT(t, c) for t in A(r, v)))), [AP[0](r, QUOT(x, c), QUOT(y, c), QUOT(z, c))])))
     g.append(("L-rot.additive", fa([r, x, y, z, a, b, c], eq3(A(r, (x + a, y + b, z + c)), tuple(p + q for p, q in zip(A(r, v), A(r, (a, b, c))))))))
     # ---- trigonometry (A2)
     g = ax.setdefault("trig", [])
@@ -159,7 +164,9 @@ def _axioms():
     )
     g.append(("A2.atan2_odd_in_y", fa([y, x], z3.Implies(z3.Or(y != 0, x > 0), ATAN2(-y, x) == -ATAN2(y, x)), [ATAN2(-y, x)])))
     g = ax.setdefault("atan2.scale", [])
-    g.append(("A2.atan2_positively_homogeneous", fa([c, y, x], z3.Implies(c > 0, z3.And(ATAN2(c * y, c * x) == ATAN2(y, x), ATAN2(y / c, x / c) == ATAN2(y, x))))))
+    g.append(("A2.atan2_positively_homogeneous", fa([c, y, x], z3.Implies(c > 0, ATAN2(c * y, c * x) == ATAN2(y, x)))))
+    g.append(("A2.atan2_positively_homogeneous_division", fa([c, y, x], z3.Implies(c > 0, ATAN2(QUOT(y, c), QUOT(x, c)) == ATAN2(y, x)), [ATAN2(QUOT(y, c), QUOT(x, c))])))
+    ax.setdefault("quotient", []).append(("A1.quotient_times_divisor", fa([x, c], z3.Implies(c != 0, QUOT(x, c) * c == x), [QUOT(x, c)])))
     g = ax.setdefault("atan2.polar", [])
     g.append(("A2.atan2_polar_form", fa([h, y, x], z3.Implies(z3.And(h >= 0, h * h == x * x + y * y), z3.And(h * COS(ATAN2(y, x)) == x, h * SIN(ATAN2(y, x)) == y)))))
     g = ax.setdefault("trig.shift", [])
@@ -200,12 +207,13 @@ def _axioms():
         )
     )
     g = ax.setdefault("hypot", [])
-    g.append(("A1.hypot_is_the_nonnegative_root_of_the_sum_of_squares", fa([x, y, z], z3.And(HYP(x, y, z) >= 0, HYP(x, y, z) * HYP(x, y, z) == x * x + y * y + z * z), [HYP(x, y, z)])))
+    g.append(("A1.hypot_is_nonnegative", fa([x, y, z], HYP(x, y, z) >= 0, [HYP(x, y, z)])))
+    ax.setdefault("hypot.square", []).append(("A1.hypot_squared_is_the_sum_of_squares", fa([x, y, z], HYP(x, y, z) * HYP(x, y, z) == x * x + y * y + z * z, [HYP(x, y, z)])))
     g.append(("A1.hypot_is_zero_only_for_the_zero_vector", fa([x, y, z], (HYP(x, y, z) == 0) == z3.And(x == 0, y == 0, z == 0), [HYP(x, y, z)])))
     g = ax.setdefault("asin", [])
     g.append(("A2.asin_of_unit_vector_height", fa([z, h], z3.Implies(z3.And(h >= 0, h * h + z * z == 1), ASIN(z) == ATAN2(z, h)))))
     g.append(("A2.asin_range", fa([z], z3.And(-HALF_PI <= ASIN(z), ASIN(z) <= HALF_PI), [ASIN(z)])))
-    g.append(("A2.asin_of_normalised_height_is_the_elevation", fa([c, x, y, z], z3.Implies(z3.And(c > 0, c * c == x * x + y * y + z * z), ASIN(z / c) == ATAN2(z, HYP(x, y, 0))))))
+    g.append(("A2.asin_of_normalised_height_is_the_elevation", fa([x, y, z], z3.Implies(HYP(x, y, z) > 0, ASIN(QUOT(z, HYP(x, y, z))) == ATAN2(z, HYP(x, y, 0))), [ASIN(QUOT(z, HYP(x, y, z)))])))
     return ax
 
 
@@ -291,6 +299,10 @@ def _elementwise(I, sym, a, b):
     op = {"+": "+", "-": "-", "*": "*", "/": "/"}[sym]
 
     def one(x, y):
+        if op == "/" and isinstance(y, SV) and not z3.is_rational_value(z3.simplify(rz(y))):
+            if not I.in_spec and I.decide(compare("==", y, 0)):
+                I.raise_("FloatingPointError", "numpy division by zero (nan/inf is outside the float model A1)")
+            return quotient(I.eng, x, y)
         if op == "/" and not I.in_spec:
             if I.decide(compare("==", y, 0)):
                 # numpy: division by zero yields inf/nan with a warning, not an exception; nan is outside the float model A1:
@@ -314,6 +326,11 @@ def hyp_term(eng, comps):
     c = [z3.simplify(rz(x)) for x in comps] + [z3.RealVal(0)] * (3 - len(comps))
     use(eng, "hypot")  # instantiated by E-matching only in queries that mention the term (keeps unrelated queries linear)
     return HYP(*c)
+
+
+def quotient(eng, x, c):
+    """x / c for a symbolic divisor, as an uninterpreted quotient term (A1.quotient_times_divisor on demand)"""
+    return sv(QUOT(z3.simplify(rz(x)), z3.simplify(rz(c))))
 
 
 def norm_of(I, comps):
@@ -496,7 +513,14 @@ def _numpy_module(I):
         return norm_of(I, a.items)
 
     def np_mod(a, m):
-        # numpy.mod on floats: a - m*floor(a/m) (result has the sign of m)
+        # numpy.mod on floats: a - m*floor(a/m) (result has the sign of m).  For a positive constant modulus the floor is
+        # an integer witness k with 0 <= a - m*k < m (no ToInt term: those make mixed LIRA/NRA queries diverge)
+        mz = z3.simplify(rz(m))
+        if isinstance(a, SV) and z3.is_rational_value(mz) and float(mz.as_fraction()) > 0:
+            k = I.eng.fresh_int("floor")
+            r = I.eng.fresh_real("mod")
+            I.eng.assume(z3.And(r.e == rz(a) - mz * z3.ToReal(k.e), r.e >= 0, r.e < mz))
+            return r
         return arith("%", a, m)
 
     def np_array_equal(a, b):
